@@ -16,12 +16,14 @@ import (
 func init() { register(&Spec{ID: "C05", Targets: allTargets, Run: runC05}) }
 
 func runC05(c *core.Ctx) {
+	runFixtures(c, "drop", "valid")
 	c.Explain("Structural clauses of C05 decided from source by an abstract interpretation of error values (nil / *PathError or *LinkError with the provenance of each path field / error of a file-system interface call with the provenance of the path it was given / raw), with per-function summaries substituted at call sites, on linux, windows and js/wasm builds, for every method of every FS type that implements an io/fs.FS / hackpadfs.*FS method and every package-level helper taking an FS: (R05.1) no raw error (bare sentinel, errors.New/fmt.Errorf, store/record/handler/io error) is returned: every possibly non-nil error is a *PathError (single-name operations) or *LinkError (Rename, Symlink), the error of an interface call that received the caller's name, or such an error passed through a translator; (R05.2) path fields come from the caller's name (the parameter, or a path derived from it), never the empty constant, a Mount sub-path (inner namespace), an OS path, a base name or an untracked string; an error of a call made with an inner or OS path must pass through the translator with the (name, subPath) pair of the Mount call that produced the inner path; LinkError.Old/New come from the old/new parameter respectively; (R05.3) the mount translator can produce a path longer than its input (it concatenates a name-derived prefix) — a trim-only translator cannot be right for a real mount point; (R05.4 = R08.3, checked under C08). NOT claimed: that the path equals the one package os would name; sentinel agreement with os per situation; correctness of the translator's string arithmetic beyond R05.3.")
 	c.Assume("A1: an interface-dispatched FS method returns *PathError/*LinkError naming the path it was given", "A2: standard os functions return *PathError/*LinkError/*SyscallError naming the OS path they were given",
 		"errors of File methods (handle.Stat/Close/Read…) are the handle's own and accepted as they are")
 	c.RuleDoc("R05.1", "typed errors only (no raw error leaves an FS-level entry point)")
 	c.RuleDoc("R05.2", "path fields in the caller's namespace; inner/OS-namespace errors translated with the right pair")
 	c.RuleDoc("R05.3", "mount translator is expansive")
+	c.RuleDoc("R05.4", "no path field of a PathError/LinkError can be the empty string")
 	for _, p := range c.Progs {
 		c.SetProg(p)
 		eng := newErrEngine(p)
@@ -47,10 +49,12 @@ func runC05(c *core.Ctx) {
 			c.Hard("anchor: expected >= 60 FS-level entry points, found %d", n)
 		}
 		r05Expansive(c, p, eng)
+		r05NonEmpty(c, p)
 	}
 	c.Floor("R05.1", 60)
 	c.Floor("R05.2", 60)
 	c.Floor("R05.3", 1)
+	c.Floor("R05.4", 35)
 }
 
 func nameParamIdx(fn *ssa.Function) []int {
@@ -289,6 +293,228 @@ func DebugErrAbs(p *load.Program, names ...string) {
 				fmt.Println("==", n)
 				for _, a := range eng.summary(fn) {
 					fmt.Printf("   %s T=%s NS=%v arg=%d desc=%q at %s\n", a.Kind, a.T, a.NS, a.Arg, a.Desc, p.Pos(a.Pos))
+				}
+			}
+		}
+	}
+}
+
+// ---- R05.4: no path field can be the empty string ----
+
+// strNonEmpty: v cannot be "" — constants other than "", names received from callers or carried by errors from
+// below (A1: a path in an error is never empty), concatenations with a non-empty side, replacements, a phi of
+// these; strings.TrimPrefix(x, y)/TrimSuffix/slicing can empty a string unless the result is tested against ""
+// (dominating fact) — including through module functions returning strings (all their returns are checked).
+func strNonEmpty(p *load.Program, v ssa.Value, at ssa.Instruction, depth int, seen map[ssa.Value]bool) (bool, string) {
+	if depth > 12 || seen[v] {
+		return true, ""
+	}
+	seen[v] = true
+	// a dominating test v != ""
+	if at != nil {
+		for _, f := range ssax.FactsAtInstr(at) {
+			if bo, ok := f.Cond.(*ssa.BinOp); ok && (bo.Op == token.EQL || bo.Op == token.NEQ) {
+				var other ssa.Value
+				if bo.X == v {
+					other = bo.Y
+				} else if bo.Y == v {
+					other = bo.X
+				}
+				if other != nil {
+					if s, isC := ssax.ConstString(other); isC && s == "" && (bo.Op == token.NEQ) == f.Val {
+						return true, ""
+					}
+				}
+			}
+		}
+	}
+	switch x := v.(type) {
+	case *ssa.Const:
+		if s, ok := ssax.ConstString(x); ok && s == "" {
+			return false, "the constant \"\""
+		}
+		return true, ""
+	case *ssa.Phi:
+		for i, e := range x.Edges {
+			// the edge's own facts: the value on edge i is used where the predecessor ends
+			var atE ssa.Instruction
+			if pb := x.Block().Preds[i]; len(pb.Instrs) > 0 {
+				atE = pb.Instrs[len(pb.Instrs)-1]
+			}
+			if ok, why := strNonEmpty(p, e, atE, depth+1, seen); !ok {
+				return false, why
+			}
+		}
+		return true, ""
+	case *ssa.BinOp:
+		if x.Op == token.ADD {
+			okx, _ := strNonEmpty(p, x.X, at, depth+1, seen)
+			oky, why := strNonEmpty(p, x.Y, at, depth+1, seen)
+			if okx || oky {
+				return true, ""
+			}
+			return false, why
+		}
+		return true, ""
+	case *ssa.Slice:
+		return false, "a slice expression of a string"
+	case *ssa.Call:
+		callee := ssax.StaticCallee(x)
+		switch {
+		case ssax.CalleeIs(x, "strings", "TrimPrefix") && trimsWholeElements(x, at):
+			// the prefix ends in "/": the result is empty only if the string ends in "/" too, which no path does (A1)
+			return strNonEmpty(p, x.Call.Args[0], at, depth+1, seen)
+		case ssax.CalleeIs(x, "strings", "TrimPrefix"), ssax.CalleeIs(x, "strings", "TrimSuffix"), ssax.CalleeIs(x, "strings", "TrimLeft"), ssax.CalleeIs(x, "strings", "TrimRight"), ssax.CalleeIs(x, "strings", "Trim"):
+			return false, ssax.CallName(x) + " (empty when the string equals what is trimmed)"
+		case ssax.CalleeIs(x, "strings", "ReplaceAll"), ssax.CalleeIs(x, "strings", "Replace"):
+			if s, ok := ssax.ConstString(x.Call.Args[2]); ok && s != "" {
+				return strNonEmpty(p, x.Call.Args[0], at, depth+1, seen)
+			}
+			return false, ssax.CallName(x) + " with a possibly empty replacement"
+		case ssax.CalleeIs(x, "path", "Join"), ssax.CalleeIs(x, "path", "Clean"), ssax.CalleeIs(x, "path", "Dir"), ssax.CalleeIs(x, "path", "Base"):
+			// Clean/Dir/Base never return ""; Join returns "" only for all-empty elements
+			if ssax.CalleeIs(x, "path", "Join") {
+				for _, e := range variadicElems(x.Call.Args[0]) {
+					if ok, _ := strNonEmpty(p, e, at, depth+1, seen); ok {
+						return true, ""
+					}
+				}
+				return false, "path.Join of possibly empty elements"
+			}
+			return true, ""
+		case callee != nil && p.InModule(callee) && callee.Blocks != nil && callee.Signature.Results().Len() >= 1:
+			// every string return of the callee
+			for _, r := range ssax.Returns(callee) {
+				for i, res := range r.Results {
+					if !isStr(callee.Signature.Results().At(i).Type()) {
+						continue
+					}
+					if ex, isEx := v.(*ssa.Extract); isEx && ex.Index != i {
+						continue
+					}
+					if ok, why := strNonEmpty(p, res, r, depth+1, seen); !ok {
+						return false, fname(callee) + " can return " + why
+					}
+				}
+			}
+			return true, ""
+		}
+		return true, ""
+	case *ssa.UnOp:
+		// a load of a struct field that was stored earlier in the same block: the value stored
+		if fa, ok := x.X.(*ssa.FieldAddr); ok && x.Op == token.MUL {
+			b := x.Block()
+			idx := -1
+			for i, ins := range b.Instrs {
+				if ins == ssa.Instruction(x) {
+					idx = i
+				}
+			}
+			for i := idx - 1; i >= 0; i-- {
+				if st, ok := b.Instrs[i].(*ssa.Store); ok {
+					if fa2, ok := st.Addr.(*ssa.FieldAddr); ok && fa2.X == fa.X && fa2.Field == fa.Field {
+						return strNonEmpty(p, st.Val, st, depth+1, seen)
+					}
+				}
+			}
+		}
+		return true, ""
+	case *ssa.Extract:
+		if cl, ok := x.Tuple.(*ssa.Call); ok {
+			callee := ssax.StaticCallee(cl)
+			if callee != nil && p.InModule(callee) && callee.Blocks != nil {
+				for _, r := range ssax.Returns(callee) {
+					if x.Index < len(r.Results) && isStr(r.Results[x.Index].Type()) {
+						if ok, why := strNonEmpty(p, r.Results[x.Index], r, depth+1, seen); !ok {
+							return false, fname(callee) + " can return " + why
+						}
+					}
+				}
+			}
+		}
+		return true, ""
+	}
+	return true, "" // parameters, field loads, map/slice elements: names received, never empty (A1)
+}
+
+// trimsWholeElements: the prefix argument of this TrimPrefix call ends in "/" — syntactically (x + "/", a constant)
+// or as strings.TrimSuffix(s, n) where strings.HasSuffix(s, "/"+n) is known to hold at `at`.
+func trimsWholeElements(cl *ssa.Call, at ssa.Instruction) bool {
+	y := cl.Call.Args[1]
+	if s, ok := ssax.ConstString(y); ok {
+		return strings.HasSuffix(s, "/")
+	}
+	if endsInSlash(y) {
+		return true
+	}
+	ts, ok := y.(*ssa.Call)
+	if !ok || !ssax.CalleeIs(ts, "strings", "TrimSuffix") {
+		return false
+	}
+	for _, where := range []ssa.Instruction{at, cl} {
+		if where == nil {
+			continue
+		}
+		for _, f := range ssax.FactsAtInstr(where) {
+			hc, ok := f.Cond.(*ssa.Call)
+			if !ok || !f.Val || !ssax.CalleeIs(hc, "strings", "HasSuffix") || hc.Call.Args[0] != ts.Call.Args[0] {
+				continue
+			}
+			if bo, ok := hc.Call.Args[1].(*ssa.BinOp); ok && bo.Op == token.ADD && bo.Y == ts.Call.Args[1] {
+				if s, ok := ssax.ConstString(bo.X); ok && s == "/" {
+					return true
+				}
+			}
+		}
+	}
+	return false
+}
+
+// r05NonEmpty (R05.4): every value stored into PathError.Path / LinkError.Old / LinkError.New anywhere in the
+// module cannot be the empty string. A store that is overwritten later in the same block is skipped (dead).
+func r05NonEmpty(c *core.Ctx, p *load.Program) {
+	for _, fn := range p.SrcFuncs() {
+		ord := ordinals{}
+		for _, b := range fn.Blocks {
+			for i, ins := range b.Instrs {
+				st, ok := ins.(*ssa.Store)
+				if !ok {
+					continue
+				}
+				fa, ok := st.Addr.(*ssa.FieldAddr)
+				if !ok {
+					continue
+				}
+				n := ssax.StructOfFieldAddr(fa)
+				if n == nil || n.Obj().Pkg() == nil || (n.Obj().Name() != "PathError" && n.Obj().Name() != "LinkError") {
+				continue
+			}
+			if pp := n.Obj().Pkg().Path(); pp != mod && pp != "io/fs" && pp != "os" {
+					continue
+				}
+				field := ssax.FieldName(fa)
+				if field != "Path" && field != "Old" && field != "New" {
+					continue
+				}
+				// dead store: the same field of the same object is stored again later in this block
+				dead := false
+				for _, later := range b.Instrs[i+1:] {
+					if s2, ok := later.(*ssa.Store); ok {
+						if fa2, ok := s2.Addr.(*ssa.FieldAddr); ok && fa2.X == fa.X && fa2.Field == fa.Field {
+							dead = true
+							break
+						}
+					}
+				}
+				if dead {
+					continue
+				}
+				key := fname(fn) + "|" + ord.next("path-field:"+field)
+				ok2, why := strNonEmpty(p, st.Val, st, 0, map[ssa.Value]bool{})
+				if ok2 {
+					c.OK("R05.4", key, p.Pos(st.Pos()), "the stored path cannot be empty")
+				} else {
+					c.Bad("R05.4", key, p.Pos(st.Pos()), fmt.Sprintf("%s stores %s into %s.%s: the error names the empty string instead of a path (the root is \".\") when the whole string is trimmed away", fname(fn), why, n.Obj().Name(), field))
 				}
 			}
 		}
